@@ -716,3 +716,29 @@ Proof.
   split; [exact G2|]. split; [exact F|]. split; [exact E|]. split; [|split; [exact Hlen|reflexivity]].
   exists (set_nxt (Some b) (set_prv (last_opt a) (fresh_node c k))). auto.
 Qed.
+
+(* ====================================================================== *)
+(* getNextCounter's overflow branch: every linked node gets the same fresh counter *)
+
+Lemma reset_chain_spec : forall ids h p k,
+  lchain h p ids -> NoDup ids -> length ids <= k ->
+  let h' := reset_chain k h (hd_error ids) in
+  length h' = length h /\
+  (forall j, ~ In j ids -> nth_error h' j = nth_error h j) /\
+  (forall j nd, In j ids -> nth_error h j = Some nd -> nth_error h' j = Some (set_ctr GenCL.wrap_rewrite_value nd)).
+Proof.
+  induction ids as [|x r IH]; intros h p k H Hnd Hk; simpl in *.
+  - destruct k; simpl; repeat split; auto; intros j nd [].
+  - destruct H as [xn [Hx [Hxl [Hxp [Hxn Hr]]]]].
+    destruct k as [|k]; [simpl in Hk; lia|]. simpl. rewrite Hx. rewrite Hxn.
+    apply NoDup_cons_iff in Hnd as [Hni Hnd].
+    assert (Hr' : lchain (upd h x (set_ctr GenCL.wrap_rewrite_value)) (Some x) r).
+    { apply (lchain_frame h); [exact Hr|]. intros y Hy. apply nth_error_upd_other. intro E; subst; contradiction. }
+    destruct (IH (upd h x (set_ctr GenCL.wrap_rewrite_value)) (Some x) k Hr' Hnd ltac:(simpl in Hk; lia)) as [L [A B]].
+    split; [rewrite L; apply length_upd|]. split.
+    + intros j Hj. rewrite A by (intro X; apply Hj; right; exact X).
+      apply nth_error_upd_other. intro E; subst. apply Hj; left; reflexivity.
+    + intros j nd [E|Hj] Hjn.
+      * subst j. rewrite A by exact Hni. rewrite (nth_error_upd_same _ _ _ _ Hx). rewrite Hx in Hjn; inversion Hjn; reflexivity.
+      * apply B; [exact Hj|]. rewrite nth_error_upd_other; [exact Hjn|]. intro E; subst; contradiction.
+Qed.
